@@ -1,6 +1,7 @@
 import H3.Model.Goaway
 import H3.Spec.Goaway
 import H3.Lemmas.Goaway
+import H3.Lemmas.GoawayQueue
 import H3.Props.C16
 /-! # C08 — GOAWAY identifiers never grow and draw the accept/reject line exactly
 
@@ -350,6 +351,48 @@ example : (acceptLoop false { sentClosing := some 4, largest := some 0, ongoing 
     -- … and when none is (the witness of D-08b: shutdown(1) announced 4, stream 4 arrives before stream 0)
     (run {} [.shutdown 1, .arrive 4, .arrive 0, .accept]).2 =
       [.goaway 4, .shutdownOk, .rejected 4, .surfaced 0] := by decide
+
+/-- **The queue rules over whole histories** (`H3.Spec.Goaway.okQueue`; D-08b).  The judged history
+    of a run (`runJ`) is what the model shows with the peer's `arrived id`, the application's
+    `completed id` and `shutdownCalled n` put in where the events happen.  For every history whose
+    arrivals are distinct request stream IDs (a stream is opened once) and whose `shutdown` counts
+    fit `usize`, every observation passes the queue rules against the history before it:
+
+    * a stream is shown or refused at most once;
+    * `None` is answered only when every stream the peer has opened has been shown or refused, and
+      every request shown is done;
+    * a `shutdown(n)` that answers `Ok` leaves a GOAWAY in force whose identifier is at most
+      `n` requests past the largest one shown (`shutdownBound`), 2^62 − 4 at most. -/
+theorem C08_server_queue (evs : List Ev) (hq : ∀ e ∈ evs, H3.Lemmas.GoawayQueue.QEv e)
+    (hn : (arrivals evs).Nodup) :
+    validQ {} (H3.Lemmas.GoawayQueue.runJ {} evs) = true := by
+  have ha : ∀ l : List Ev, arrivals l = H3.Lemmas.GoawayQueue.arrivalsOf l := by
+    intro l
+    induction l with
+    | nil => rfl
+    | cons e r ih => cases e <;> simp [arrivals, H3.Lemmas.GoawayQueue.arrivalsOf, ih]
+  have hf : H3.Lemmas.GoawayQueue.IdForm := fun L n h4 hL hn => C08_shutdown_id L n h4 hL hn
+  exact H3.Lemmas.GoawayQueue.run_q hf evs {} {} H3.Lemmas.GoawayQueue.qinv_init hq (ha evs ▸ hn)
+    (by intro id _; simp)
+
+-- the witness of D-08b as the judge sees it: the repaired model's history passes, the unrepaired tree's does not
+example : H3.Lemmas.GoawayQueue.runJ {} [.shutdown 1, .arrive 4, .arrive 0, .accept, .complete 0, .accept] =
+      [.shutdownCalled 1, .goaway 4, .shutdownOk, .arrived 4, .arrived 0, .rejected 4, .surfaced 0, .completed 0,
+       .acceptPending] ∧
+    validQ {} [.shutdownCalled 1, .goaway 4, .shutdownOk, .arrived 4, .arrived 0, .rejected 4, .goaway 0, .acceptNone] = false ∧
+    -- `shutdown = Ok` without a GOAWAY, a second outcome, `None` with a request in progress, an identifier above the bound
+    validQ {} [.surfaced 0, .shutdownOk, .acceptNone] = false ∧
+    validQ {} [.goaway 4, .shutdownOk, .surfaced 0, .surfaced 0] = false ∧
+    validQ {} [.surfaced 0, .goaway 4, .shutdownCalled 0, .shutdownOk, .acceptNone] = false ∧
+    validQ {} [.goaway 12, .shutdownCalled 2, .shutdownOk] = false ∧
+    validQ {} [.goaway 8, .shutdownCalled 2, .shutdownOk] = true := by decide
+
+-- … and the hypotheses of `C08_server_queue` are satisfiable by such a history
+example : (∀ e ∈ [Ev.shutdown 1, .arrive 4, .arrive 0, .accept, .complete 0, .accept], H3.Lemmas.GoawayQueue.QEv e) ∧
+    (arrivals [Ev.shutdown 1, .arrive 4, .arrive 0, .accept, .complete 0, .accept]).Nodup := by
+  refine ⟨?_, by decide⟩
+  intro e he; simp at he
+  rcases he with rfl | rfl | rfl | rfl | rfl | rfl <;> simp [H3.Lemmas.GoawayQueue.QEv]
 
 /-- **… and over whole histories.**  In every history (any interleaving of arrivals, `accept`
     polls, `shutdown n`, completions, GOAWAYs of the peer), with *in progress* read off the history
